@@ -779,6 +779,13 @@ def Mon.rest (m : Mon) (w : World) : List Vio :=
        v "C11" "errorBlocksCompletion" [] s!"event {e} has a handler error result and never completes" else [])) ++
   ((insts w).flatMap fun i =>
     if isAwaiting (w.inst i).st then v "C04" "deadlock" [] s!"instance {i} still awaiting at rest" else []) ++
+  -- C10: a handler whose deadline has passed and whose task has been cancelled stops executing and gets its TimeoutError
+  -- recorded - it is not still alive when nothing moves any more
+  ((insts w).flatMap fun i =>
+    if (w.inst i).cancelling && (w.inst i).st != .finished && (w.inst i).st != .ended && (w.inst i).deadline != 0 && (w.inst i).deadline ≤ w.now &&
+       !stopRelated (hangSigs w m (w.inst i).ev ++ busHangSigs w m (w.inst i).bus) then
+      v "C10" "timedOutHandlerNeverEnds" [] s!"instance {i} (bus {(w.inst i).bus} event {(w.inst i).ev}) was cancelled at its deadline {(w.inst i).deadline} and is still executing at rest: no TimeoutError was recorded for it, the remaining handlers of its event never run"
+    else []) ++
   -- a handler body that has ended (returned or raised) has its outcome recorded
   ((insts w).flatMap fun i =>
     if (w.inst i).st == .ended && !stopRelated (hangSigs w m (w.inst i).ev ++ busHangSigs w m (w.inst i).bus) then
